@@ -6,8 +6,8 @@
    C18_base64_nonempty), which gives the hypothesis-free C18_roundtrip_concrete. *)
 From Coq Require Import Permutation.
 From Oras Require Import Base.Prelude Base.FlatFS Generated.GC18
-  Model.Utf8 Model.Json Model.Base64 Model.CredFile Model.JsonDoc Model.CredSave Model.CredConc
-  Proofs.Base64 Proofs.Json Proofs.CredFile Proofs.CredSave Proofs.CredConc Proofs.CredJson Proofs.JsonDoc.
+  Model.Utf8 Model.Json Model.Base64 Model.CredFile Model.JsonDoc Model.JsonRead Model.CredSave Model.CredConc
+  Proofs.Base64 Proofs.Json Proofs.CredFile Proofs.CredSave Proofs.CredConc Proofs.CredJson Proofs.JsonDoc Proofs.JsonRead.
 
 (* Put then Get -- after any further history that does not Put/Delete the same
    address -- returns exactly the stored credential, whatever order Go's map
@@ -495,6 +495,18 @@ Theorem C18_entry_bytes_roundtrip :
     cred_of_bytes b64_decode (entry_bytes b64_encode c) = RCred c.
 Proof. exact entry_bytes_roundtrip. Qed.
 Print Assumptions C18_entry_bytes_roundtrip.
+
+(* the GENERAL reader of the model (Model/JsonRead.v: the JSON value parser with
+   encoding/json's conventions and the unmarshalling into AuthConfig -- the one
+   that classifies a loaded config file in the HB correspondence cases) reads the
+   text PutCredential produced back to the stored credential *)
+Theorem C18_reader_reads_put_entry :
+  forall a c,
+    put_accepts a c = true -> Forall (fun x => x < 256) (c_user c ++ colon :: c_pass c) ->
+    exists v, parse_whole (entry_bytes b64_encode c) = Some v /\
+              cred_of_entry b64_decode (Old (entry_bytes b64_encode c) (view_of_jval v)) = RCred c.
+Proof. exact reader_reads_put_entry. Qed.
+Print Assumptions C18_reader_reads_put_entry.
 
 (* the BYTES saveFile writes (Model/JsonDoc.v render_file = json.MarshalIndent of the
    content map, compared byte for byte with the real file on every run) do not
